@@ -1,28 +1,53 @@
 (* C08 — every known codec of the configuration round-trips; instance of the schema theorem. *)
 From Coq Require Import List ZArith Bool Lia.
-Require Import MTX.Lib.IntWrap MTX.Lib.Utf8 MTX.Model.C08_Scalars MTX.Model.C08_Schema MTX.Model.C08_ConfCodecs.
-Require Import MTX.Proofs.C08_Dec MTX.Proofs.C08_Codecs MTX.Proofs.C08_Duration MTX.Proofs.C08_Schema.
+Require Import MTX.Lib.IntWrap MTX.Lib.Utf8 MTX.Model.C08_Scalars MTX.Model.C08_Net6 MTX.Model.C08_Schema MTX.Model.C08_ConfCodecs.
+Require Import MTX.Proofs.C08_Dec MTX.Proofs.C08_Codecs MTX.Proofs.C08_Net6 MTX.Proofs.C08_Duration MTX.Proofs.C08_Schema.
 Import ListNotations.
 Local Open Scope Z_scope.
 
+(* ---- AlwaysAvailableTrack: the alias struct is an instance of the schema theorem (it holds no codec
+   type), validate() is a predicate on the decoded value *)
+Lemma track_ty_ok : ty_ok codec track_ty_model = true /\ codecs_of codec track_ty_model = [].
+Proof. vm_compute. split; reflexivity. Qed.
+
+Theorem track_roundtrip c r n m :
+  valid_utf8 c = true -> int64_lo <= r <= int64_hi -> int64_lo <= n <= int64_hi -> track_valid c r n = true ->
+  track_dec (track_enc c r n m) = Some (XTrack c r n m) /\ track_enc c r n m <> JNull.
+Proof.
+  intros Hc Hr Hn Hv. destruct track_ty_ok as [Hok Hcs]. split.
+  - unfold track_dec, track_enc.
+    rewrite (schema_roundtrip codec cval (fun _ _ => JNull) (fun _ _ => None) (fun _ _ => True) czero track_ty_model Hok).
+    + rewrite Hv. reflexivity.
+    + intros k Hk. rewrite Hcs in Hk. contradiction.
+    + cbn. repeat split; try assumption; lia.
+  - unfold track_enc, track_ty_model. cbn. discriminate.
+Qed.
+
+(* validate() rejects every track that is not well-formed: the decoder returns valid tracks only *)
+Lemma track_dec_valid j c r n m : track_dec j = Some (XTrack c r n m) -> track_valid c r n = true.
+Proof.
+  intros H. unfold track_dec in H.
+  repeat match type of H with context [match ?x with _ => _ end] => destruct x eqn:?; try discriminate end.
+  inversion H; subst. assumption.
+Qed.
+
+Example track_examples :
+  track_enc s_MPEG4Audio 44100 2 false =
+    JObj [(s_codec, JStr s_MPEG4Audio); (s_sampleRate, JInt 44100); (s_channelCount, JInt 2); (s_muLaw, JBool false)] /\
+  track_dec (track_enc s_MPEG4Audio 44100 2 false) = Some (XTrack s_MPEG4Audio 44100 2 false) /\
+  (* sampleRate must not be specified for H264 *)
+  track_dec (track_enc s_H264 44100 0 false) = None /\
+  track_dec (JObj [(s_codec, JStr s_G711); (s_sampleRate, JInt 8000); (s_channelCount, JInt 1)]) = Some (XTrack s_G711 8000 1 false) /\
+  track_dec (JObj [(s_codec, JStr s_G711); (s_sampleRate, JInt 8000); (s_channelCount, JInt 1); ([120], JInt 1)]) = None /\
+  track_dec JNull = None.
+Proof. vm_compute. repeat split. Qed.
+
 Section ConfCodecs.
-  Variable net6 : Type.
-  Variable net6_print : net6 -> list Z.
-  Variable net6_parse : list Z -> option net6.
   Variable cred_valid : list Z -> bool.
-  Variable track : Type.
-  Variable track_enc : track -> json.
-  Variable track_dec : json -> option track.
 
-  (* what is assumed of the oracles *)
-  Hypothesis net6_ok : forall x, ipnet_unmarshal (net6_print x) = NV6 /\ net6_parse (net6_print x) = Some x.
-  Hypothesis track_ok : forall x, track_dec (track_enc x) = Some x /\ track_enc x <> JNull.
-
-  Notation cval := (cval net6 track).
-  Notation cenc := (cenc net6 net6_print track track_enc).
-  Notation cdec := (cdec net6 net6_parse cred_valid track track_dec).
-  Notation cwf := (cwf net6 cred_valid track).
-  Notation czero := (czero net6 track).
+  Notation cenc := (cenc).
+  Notation cdec := (cdec cred_valid).
+  Notation cwf := (cwf cred_valid).
 
   Lemma mapM_jstr l : mapM jstr (map JStr l) = Some l.
   Proof. apply mapM_map. induction l; constructor; [reflexivity|assumption]. Qed.
@@ -30,16 +55,15 @@ Section ConfCodecs.
   Lemma known_codec_ok c : known_codec c = true -> codec_ok codec cval cenc cdec cwf c.
   Proof.
     intros Hk x Hw. destruct c; try discriminate; destruct x; cbn [C08_ConfCodecs.cwf] in Hw; try contradiction;
-      cbn [C08_ConfCodecs.cenc C08_ConfCodecs.cdec]; (split; [|try discriminate]).
+      cbn [C08_ConfCodecs.cenc C08_ConfCodecs.cdec jtext]; (split; [|try discriminate]).
     - rewrite (dur_roundtrip d Hw). reflexivity.
     - rewrite (size_roundtrip_model n Hw). reflexivity.
-    - rewrite (ipnet4_roundtrip ip ones Hw). reflexivity.
-    - destruct (net6_ok x) as [H1 H2]. rewrite H1, H2. reflexivity.
+    - unfold ipnet_unmarshal_full. rewrite (ipnet4_roundtrip ip ones Hw). reflexivity.
+    - rewrite (ipnet6_roundtrip_full ip ones Hw). reflexivity.
     - rewrite Hw. reflexivity.
     - rewrite (enum_roundtrip e v Hw). reflexivity.
     - rewrite mapM_jstr, transports_roundtrip. reflexivity.
-    - destruct (track_ok x) as [H1 _]. destruct (track_enc x); rewrite H1; reflexivity.
-    - destruct (track_ok x) as [_ H2]. exact H2.
+    - destruct Hw as (H1 & H2 & H3 & H4). apply (track_roundtrip tcodec rate chans mulaw H1 H2 H3 H4).
   Qed.
 
   Theorem conf_schema_roundtrip (t : ty codec) :
